@@ -139,7 +139,7 @@ def gen_history(rng, hid, maxlen=6):
         if one_handle:
             # every operation after the first write goes through ONE long-lived ParquetFile (write_row_groups / remove_row_groups are
             # its methods; write(append=...) would open another handle): Dataset/DsHandle.v, theorem C09_handle_refines
-            kinds = ["remove"] * 2 + ["writergs"] * 3
+            kinds = ["remove"] * 2 + ["writergs"] * 3 + ["failed_writergs"] * 2
         kind = rng.choice(kinds)
         if kind == "remove":
             ops.append({"op": "remove", "sel_spec": [rng.randrange(0, 12) for _ in range(rng.choice([0, 1, 1, 2, 3]))],
@@ -153,6 +153,11 @@ def gen_history(rng, hid, maxlen=6):
         if kind == "writergs":
             o["sort_key"] = rng.choice(SORT_KEYS)
             o["sort_pnames"] = rng.random() < 0.5
+        if kind == "failed_writergs":
+            # write_row_groups through the handle whose data source raises after `after` row groups (DsHandle.v fail_op): the
+            # operation reports the failure; summary, content and the HANDLE must be as before (unreferenced part files may stay)
+            o["after"] = rng.randrange(0, len(o["offsets"]) + 1)
+            o["sort_key"], o["sort_pnames"] = "none", False
         ops.append(o)
     h = {"id": hid, "pcols": pcols, "ptypes": {"k": kkind, "j": jkind}, "ops": ops}
     if one_handle:
@@ -279,6 +284,9 @@ def model_ops(h, resolved):
     for o, sel in zip(h["ops"], resolved):
         if o["op"] == "remove":
             out.append(["remove", list(sel if sel is not None else []), 1 if o["sort_pnames"] else 0])
+            continue
+        if o["op"] == "failed_writergs":
+            out.append(["remove", [], 0])          # C09_failed_op_state_unchanged: summary and content as before
             continue
         rgs = sx_rgs(cut(o["frame"], o["offsets"], h["pcols"], h.get("ptypes")))
         if h["pcols"] and o["op"] == "append" and not any(g for g in rgs):
@@ -427,6 +435,21 @@ def run_history(arg):
                     n = len(pf.row_groups)
                     sel = list(range(n)) if o.get("all") else (sorted(set(i % n for i in o["sel_spec"])) if n else [])
                     pf.remove_row_groups([pf.row_groups[i] for i in sel], sort_pnames=o["sort_pnames"], **okw)
+                elif o["op"] == "failed_writergs":
+                    if handle is None:
+                        handle = ParquetFile(root, **okw)
+                        if handle.row_groups:
+                            handle.to_pandas(columns=["x"])
+                    dff = to_df(o["frame"], pcols, h.get("ptypes"))
+                    offs = list(o["offsets"]) + [len(dff)]
+
+                    def source():
+                        for j in range(len(offs) - 1):
+                            if j >= o["after"]:
+                                break
+                            yield dff.iloc[offs[j]:offs[j + 1]]
+                        raise OSError("the data source of this write_row_groups failed after %d row groups" % o["after"])
+                    handle.write_row_groups(source(), **okw)
                 elif o["op"] == "writergs":
                     if h.get("one_handle") and handle is None:
                         handle = ParquetFile(root, **okw)
@@ -460,7 +483,7 @@ def dir_of(p):
     return p.rsplit("/", 1)[0] if "/" in p else ""
 
 
-def oracle(obs, spec):
+def oracle(obs, spec, orphans_ok=False):
     """the property's text on the real state after one step; spec = [(dir, ids)] predicted by the plain model (or None)."""
     problems = []
     if "open_error" in obs:
@@ -484,7 +507,7 @@ def oracle(obs, spec):
     if len(set(refd)) != len(refd):
         problems.append(("file-referenced-twice", "%s" % sorted(p for p in set(refd) if refd.count(p) > 1)))
     unref = sorted(set(obs["files"]) - set(refd))
-    if unref:
+    if unref and not orphans_ok:       # (a FAILED operation earlier in the history may leave unreferenced part files behind)
         problems.append(("unreferenced-part-file", "%s" % unref[:4]))
     if obs["other"]:
         problems.append(("stray-file", "%s" % obs["other"][:4]))
@@ -637,9 +660,14 @@ def run(ctx):
             ctx.count("row_groups_after", min(len(msum), 12))
             spec = files_sx(mspec[0]) if mspec else None
             # oracle first (the real state against the property's text and the plain model)
-            problems = oracle(obs, spec)
+            orphans_ok = any(oo["op"] == "failed_writergs" for oo in h["ops"][:si + 1])
+            problems = oracle(obs, spec, orphans_ok)
             problems += oracle_more(h, si, obs)
             refused = bool(obs["raised"])
+            if o["op"] == "failed_writergs":
+                if not refused:
+                    problems.insert(0, ("failing-operation-returned-normally", "write_row_groups whose data source raises returned normally"))
+                refused = False          # the model's step for it is the edit that changes nothing
             if refused and spec is not None and o["op"] != "write":
                 problems.insert(0, ("operation-refused", "%s raised %s" % (o["op"], obs["raised"])))
             emptied = si > 0 and not res["steps"][si - 1].get("summary")
@@ -665,12 +693,12 @@ def run(ctx):
                 ctx.correspondence("summary row-group list (path, rows read through the summary): model = real", short, files_sx(msum), obs["open_error"])
                 break
             rsum = [[p, ids] for p, _, ids in obs["summary"]]
-            rdir = sorted([p, f["ids"]] for p, f in obs["files"].items())
+            rdir = sorted([p, f["ids"]] for p, f in obs["files"].items() if not orphans_ok or p in [q for q, _, _ in obs["summary"]])
             mfiles = files_sx(mdir)                     # model content of a file = schema id :: row ids
             ctx.correspondence("schema ids (summary, every data file): model = real", short,
                                [msch, sorted([p, c[0] if c else None] for p, c in mfiles)],
                                [sid(obs.get("schema")),
-                                sorted([p, sid(f.get("schema"))] for p, f in obs["files"].items())])
+                                sorted([p, sid(f.get("schema"))] for p, f in obs["files"].items() if not orphans_ok or p in [q for q, _, _ in obs["summary"]])])
             mdir = [[p.encode(), c[1:]] for p, c in mfiles]
             ok &= ctx.correspondence("summary row-group list (path, rows read through the summary): model = real", short, files_sx(msum), rsum)
             ok &= ctx.correspondence("directory listing (path -> rows held): model = real", short, sorted(files_sx(mdir)), rdir)
@@ -724,8 +752,10 @@ def replay(rep):
             print("   files:   %s" % {k: v.get("ids") for k, v in obs["files"].items()})
             print("   read:    %s" % obs.get("read"))
             print("   plain model predicts: %s" % spec)
-            problems = oracle(obs, spec) + oracle_more(h, si, obs)
-            if obs["raised"] and spec is not None and o["op"] != "write":
+            problems = oracle(obs, spec, any(oo["op"] == "failed_writergs" for oo in h["ops"][:si + 1])) + oracle_more(h, si, obs)
+            if o["op"] == "failed_writergs" and not obs["raised"]:
+                problems.insert(0, ("failing-operation-returned-normally", "write_row_groups whose data source raises returned normally"))
+            if obs["raised"] and spec is not None and o["op"] not in ("write", "failed_writergs"):
                 problems.insert(0, ("operation-refused", obs["raised"]))
             for sym, text in problems:
                 print("   PROPERTY FAILS: %s: %s" % (sym, text))
